@@ -77,3 +77,14 @@ reg("C19",
     "Every placement is expanded by the repository's own entry functions; each dumped trait's slot must be a compile_error! whose text after the `dump:` header re-lexes to exactly the tokens generated without dump, undumped traits and the item must be unchanged, and errors of rejected traits must stay the same.",
     "Bound: ~900 seeds (generators + corpus) x up to 9 placements x 2 entry points; token comparison ignores spacing. The rustc rendering of the message is not compared (channel E).",
     "DESIGN.md 5/C19")
+
+reg("C17",
+    "bounded exhaustive enumeration of containers x 1..3 fields x field types {Eq, PartialEq-only, generic} x (eq, ord) attribute pairs x bound modes x PartialEq hand-written/co-derived x entry points, every case compiled metadata-only by real rustc against the real proc-macro; accept/reject compared with the reference",
+    "Each terminal state is a complete program compiled by real rustc; the reference says reject iff some field taking part in equality (not ignored, not `by`; precedence eq before ord) has a non-Eq effective component; a reject-predicted case that compiles, or an accept-predicted case with a diagnostic, is a violation. The iterative batch protocol gives every case its own verdict.",
+    "Bound: quick 1-2 fields (7890 cases), thorough up to 3 fields; key expressions `$ as u16` / `$.to_bits()` (Eq) and `$ as f32` / `$ * 2.0` (non-Eq).",
+    "DESIGN.md 5/C17")
+reg("C18",
+    "exhaustive enumeration of 11 single-field struct definitions x tuple/named x trait lists x entry points, compiled with the real proc-macro and executed (address identity, Target TypeId, write-through in both directions); every other arity and enums checked for rejection on the in-process expander",
+    "Each case is compiled by real rustc against the repository's proc-macro and executed; failing to compile is a violation. Rejection of 0-, 2-, 3-, 4-field structs and enums is checked for each of Deref, DerefMut alone and both orders through both entry points.",
+    "Bound: 132 executed cases + 112 rejection cases; field types u8, String, Box<[u8]>, Vec<T>, T, &'a T, Box<T> (T: ?Sized), [u8; N], (T, U); generics with inline bounds, defaults, const parameters and where-clauses.",
+    "DESIGN.md 5/C18")
